@@ -4,6 +4,7 @@ This module defines classes to estimate the 2D background and background
 RMS in an image.
 """
 
+import copy
 import warnings
 
 import astropy.units as u
@@ -261,6 +262,9 @@ class Background2D:
 
         # we perform sigma clipping as a separate step to avoid
         # calling it twice for the background and background RMS
+        # (on copies, so that the input estimators are not modified)
+        bkg_estimator = copy.copy(bkg_estimator)
+        bkgrms_estimator = copy.copy(bkgrms_estimator)
         bkg_estimator.sigma_clip = None
         bkgrms_estimator.sigma_clip = None
         self.bkg_estimator = bkg_estimator
